@@ -36,6 +36,8 @@ import (
 	"oras.land/oras-go/v2/content/memory"
 	"oras.land/oras-go/v2/content/oci"
 	"oras.land/oras-go/v2/errdef"
+	"oras.land/oras-go/v2/registry"
+	"oras.land/oras-go/v2/registry/remote"
 	"verifharness/common"
 	"verifharness/dag"
 )
@@ -53,8 +55,8 @@ type Case struct {
 	D0       []int         `json:"d0"`      // nodes pushed into the destination before the call (successor-closed)
 	K        int           `json:"k"`       // CopyGraphOptions.Concurrency as passed
 	Mode     string        `json:"mode"`    // g CopyGraph | t Copy into a Tagger | r Copy into a ReferencePusher
-	Src      string        `json:"src"`     // mem | oci | ocire | file
-	Dst      string        `json:"dst"`     // mem | oci | ocire
+	Src      string        `json:"src"`     // mem | oci | ocire | file | remote (remote.Repository over an in-process registry)
+	Dst      string        `json:"dst"`     // mem | oci | ocire | file | remote
 	RefFetch bool          `json:"reffetch"` // the source also implements registry.ReferenceFetcher
 	SrcRef   string        `json:"srcref"`
 	DstRef   string        `json:"dstref"` // "" = blank
@@ -193,6 +195,9 @@ func (s *srcW) Resolve(ctx context.Context, ref string) (ocispec.Descriptor, err
 type srcWRef struct{ *srcW }
 
 func (s srcWRef) FetchReference(ctx context.Context, ref string) (ocispec.Descriptor, io.ReadCloser, error) {
+	if rf, ok := s.under.(registry.ReferenceFetcher); ok {
+		return rf.FetchReference(ctx, ref)
+	}
 	d, err := s.under.Resolve(ctx, ref)
 	if err != nil {
 		return ocispec.Descriptor{}, nil, err
@@ -258,14 +263,22 @@ func (d *dstW) push(ctx context.Context, t ocispec.Descriptor, rd io.Reader, ref
 	defer d.lockDigest(t)()
 	d.r.ev(fmt.Sprintf("PB.%d.%d", n, isRef), 0, 1)
 	d.r.delay()
-	err := d.under.Push(ctx, t, rd)
+	// "x" = the content was already there (ErrAlreadyExists, or an idempotent success as registries
+	// answer); "k" = this push stored it
+	had, _ := d.under.Exists(ctx, t)
+	var err error
+	if rp, ok := d.under.(registry.ReferencePusher); ok && ref != "" {
+		err = rp.PushReference(ctx, t, rd, ref)
+	} else {
+		err = d.under.Push(ctx, t, rd)
+	}
 	res := "k"
-	if errors.Is(err, errdef.ErrAlreadyExists) {
+	if errors.Is(err, errdef.ErrAlreadyExists) || (err == nil && had) {
 		res = "x"
 	} else if err != nil {
 		res = "e"
 	}
-	if ref != "" && res != "e" {
+	if _, ok := d.under.(registry.ReferencePusher); !ok && ref != "" && res != "e" {
 		if terr := d.under.Tag(ctx, t, ref); terr != nil {
 			err, res = terr, "e"
 		}
@@ -305,6 +318,30 @@ func (d *dstW) mount(ctx context.Context, t ocispec.Descriptor, fromRepo string,
 	n := d.r.node(t) // no digest lock here: getContent re-enters the wrappers; mount cases have no twins
 	d.r.ev(fmt.Sprintf("MB.%d", n), 0, 1)
 	d.r.delay()
+	if m, ok := d.under.(registry.Mounter); ok {
+		// a real Mounter (remote.Repository): the registry decides; observe what happened
+		called, cerr := false, error(nil)
+		err := m.Mount(ctx, t, fromRepo, func() (io.ReadCloser, error) {
+			called = true
+			rc, e := getContent()
+			cerr = e
+			return rc, e
+		})
+		d.r.delay()
+		switch {
+		case !called && err == nil:
+			d.r.ev(fmt.Sprintf("ME.%d.m", n), 0, -1)
+		case called && cerr != nil && errors.Is(cerr, errInjected):
+			d.r.ev("", 0, -1)
+		case called && cerr != nil:
+			d.r.ev(fmt.Sprintf("ME.%d.s", n), 0, -1)
+		case called && err == nil:
+			d.r.ev(fmt.Sprintf("ME.%d.c", n), 0, -1)
+		default:
+			d.r.ev(fmt.Sprintf("ME.%d.e", n), 0, -1)
+		}
+		return err
+	}
 	d.r.lmu.Lock()
 	hit := d.r.lat.Intn(3) == 0
 	d.r.lmu.Unlock()
@@ -421,6 +458,9 @@ func newStore(kind, dir string) (oras.Target, func(), error) {
 	case "oci", "ocire":
 		s, err := oci.New(dir)
 		return s, func() {}, err
+	case "remote":
+		repo, err := newFakeRegistry().repository()
+		return repo, func() {}, err
 	case "file":
 		s, err := file.New(dir)
 		if err != nil {
@@ -529,6 +569,24 @@ func Execute(c *Case) *Result {
 	}
 	defer closeDst()
 
+	if repo, ok := dst.(*remote.Repository); ok {
+		// cross-repository mount: candidate "repo/a" holds the blobs whose digest starts with 0-5,
+		// "repo/b" those starting with 0-2, "repo/c" none
+		reg := repo.Client.(*fakeRegistry)
+		reg.mountable = func(from, dg string) []byte {
+			lim := map[string]byte{"repo/a": '5', "repo/b": '2'}[from]
+			i := strings.IndexByte(dg, ':')
+			if lim == 0 || i < 0 || i+1 >= len(dg) || dg[i+1] > lim {
+				return nil
+			}
+			for _, n := range g.Nodes {
+				if n.Desc.Digest.String() == dg && !n.IsManifest() {
+					return n.Bytes
+				}
+			}
+			return nil
+		}
+	}
 	r := &rec{idx: map[dkeyT]int{}, lat: common.NewRand(c.Seed)}
 	for _, n := range g.Nodes {
 		if _, dup := r.idx[keyOf(n.Desc)]; dup {
@@ -685,7 +743,7 @@ func Execute(c *Case) *Result {
 // ---- projections for the model ----
 
 // DigestKeyed: the destination identifies content by digest only.
-func DigestKeyed(kind string) bool { return kind == "oci" || kind == "ocire" }
+func DigestKeyed(kind string) bool { return kind == "oci" || kind == "ocire" || kind == "remote" }
 
 // ModelInput renders the case + trace in the line format of ml/c01_main.ml.
 func ModelInput(res *Result) string {
@@ -705,10 +763,14 @@ func ModelInput(res *Result) string {
 		}
 		dk := n.ID
 		if DigestKeyed(c.Dst) {
-			if f, ok := first[n.Desc.Digest.String()]; ok {
+			k := n.Desc.Digest.String()
+			if c.Dst == "remote" {
+				k = fmt.Sprint(n.IsManifest(), k) // a registry keeps manifests and blobs apart
+			}
+			if f, ok := first[k]; ok {
 				dk = f
 			} else {
-				first[n.Desc.Digest.String()] = n.ID
+				first[k] = n.ID
 			}
 		}
 		nodes = append(nodes, fmt.Sprintf("%s/%d/%s", fl, dk, ints(n.Succ)))
